@@ -12,7 +12,7 @@ const SPEC: Spec = Spec {
         "refint binary shift-subtract division is trusted; cross-checked against Python int on a transcript slice and self-checked by a = q*b + r on every pair",
         "x86_64 / 64-bit digits only (div_half path not built here)",
     ],
-    bounds_quick: "D1 Dense(S8,4)xDense(S8,3) (all APIs, 4 sign pairs); D2 every shift 0..63, one or two low digits, dividends Dense(S5,4); D3 Runs(S8,2,12)xRuns(S8,2,6); D4 constructed q*v+r for v in Dense(S8,3) normalised, q in Dense(S8,2), r in {0,1,v-1}, digit shifts 0..2; D5 zero divisor x pool; D6 scalar forms; D7 dense LCG digits, lengths <= 24 / <= 12, 3 x 10 members; D8 (Dense(S5,3)+lengths 3..12) x (Dense(S5,2)+lengths 3..8) through /= %= and the owning forms on operands with spare buffer capacity; D9 long operands: 300/100, 1100/3, 1100/1, 1100/1050, 1030/515, 200/199 digits x 3x3 shapes",
+    bounds_quick: "D1 Dense(S8,4)xDense(S8,3) (all APIs, 4 sign pairs); D2 every shift 0..63, one or two low digits, dividends Dense(S5,4); D3 Runs(S8,2,12)xRuns(S8,2,6); D4 constructed q*v+r for v in Dense(S8,3) normalised, q in Dense(S8,2), r in {0,1,v-1}, digit shifts 0..2; D5 zero divisor x pool; D6 scalar forms; D7 dense LCG digits, lengths <= 24 / <= 12, 3 x 10 members; D8 (Dense(S5,3)+lengths 3..12) x (Dense(S5,2)+lengths 3..8) through /= %= and the owning forms on operands with spare buffer capacity; D9 long operands: 300/100, 1100/3, 1100/1, 1100/1050, 1030/515, 200/199 digits x 3x3 shapes; D10 Dense(S16,3) x Dense(S16,2) (16-letter half-digit alphabet)",
     bounds_thorough: "D1 Dense(S8,4)xDense(S8,4) (all APIs, 4 sign pairs) + Dense(S8,5)xDense(S8,3) (core forms); D2 as quick; D3 Runs(S8,3,12)xRuns(S8,2,8); D4; D5; D6; D7 lengths <= 48 / <= 24; D8 with lengths up to 20; D9 also 2100/1040, 4099/2, 2050/2049",
     hang_secs: 120,
     probes: Some(probes),
@@ -713,6 +713,12 @@ fn body(ctx: &mut Ctx) {
                 ctx.sample(|| format!("dense LCG digits: len(a)={} len(b)={} x 3 dividends x 10 divisors (top digit shifted by 0,7,...,63 bits)", la, lb));
             }
         }
+    }
+    // D10: half-digit value structure: Dense(S16,3) x Dense(S16,2)
+    {
+        let a: Vec<Op> = alpha::dense(&alpha::SIGMA16, 3).iter().map(|d| mk(d)).collect();
+        let b: Vec<Op> = alpha::dense(&alpha::SIGMA16, 2).iter().map(|d| mk(d)).collect();
+        product(ctx, "D10", &a, &b, false);
     }
     // D9: long operands -- quotients and divisors of more than a thousand digits
     if ctx.space("D9") {
